@@ -228,6 +228,43 @@ def run(ck):
     else:
         ck.violation("BUSY-PAIR", worker.qname, "busy", "busy_/done_ accounting does not bracket the job: ++busy_ must happen under the lock before pop_front, "
                      "++done_ then --busy_ after the job on every path", worker.loc)
+    # exceptions: a job may throw; whatever must happen after the job (counters, re-lock, notify) must not share the try block
+    # with the invocation, otherwise the handler is entered with those steps skipped
+    tries = []
+    q = worker.parent(call)
+    while q is not None:
+        if q["k"] == "CXXTryStmt":
+            tries.append(q)
+        q = worker.parent(q)
+    if not tries:
+        ck.violation("EXCEPTION-BALANCED", worker.qname, "no-try", "the job is invoked outside any try block: a throwing job kills the worker with busy_ still raised",
+                     worker.nloc(call))
+    else:
+        t = tries[0]
+        block = kids(t)[0]
+        skipped = []
+        for x, f, e in field_writes(worker):
+            if f in ("busy_", "done_", "idle_") and any(y is x for y in ir.walk(block)):
+                skipped.append((x, f))
+        for x in ir.walk(block):
+            if "callee" in x and x.get("member_call") and x["callee"]["name"] in ("lock", "notify_all", "notify_one"):
+                skipped.append((x, x["callee"]["name"] + "()"))
+        # steps repeated in every handler are fine
+        handlers = kids(t)[1:]
+        really = []
+        for x, what in skipped:
+            if not g.reachable(pcall, g.pos_deep(x)):
+                continue      # before the job: not skipped by its exception
+            in_all = handlers and all(any((ff == what) and any(y is xx for y in ir.walk(h)) for xx, ff, ee in field_writes(worker)) for h in handlers)
+            if not in_all:
+                really.append((x, what))
+        if really:
+            x, what = really[0]
+            ck.violation("EXCEPTION-BALANCED", worker.qname, "try:" + what,
+                         "%s follows job() inside the same try block: a job that throws jumps to the handler and skips it, busy_ then never returns to "
+                         "zero and loop_until_empty() / loop_until_terminate() block for ever" % what, worker.nloc(x))
+        else:
+            ck.ok("EXCEPTION-BALANCED", worker.qname, "the try block around job() contains none of the completion steps (%d handler(s))" % len(handlers))
     # job lifetime: destroyed unlocked, before completion is signalled
     dt = [(b, i) for b in g.blocks for i, el in enumerate(g.elements(b)) if isinstance(el, dict) and el.get("dtor") == jv["did"]]
     ok_l = bool(dt) and bool(decs)
@@ -341,5 +378,6 @@ def run(ck):
     ck.floor("TAKE-ATOMIC", 1)
     ck.floor("RUN-UNLOCKED", 1)
     ck.floor("BUSY-PAIR", 1)
+    ck.floor("EXCEPTION-BALANCED", 1)
     ck.floor("JOB-LIFETIME", 1)
     ck.floor("JOIN-UNLOCKED", 1)
